@@ -10,10 +10,17 @@ dirs = [f"/verif/neutral/{a}" for a in args] or sorted(glob.glob("/verif/neutral
 def one(d):
     m = json.load(open(d + "/meta.json"))
     checks = list(m.get("checks", {}).keys())
+    only = os.environ.get("ONLY_CHECKS")
+    if only:
+        checks = [c for c in checks if c in only.split(",")]
+        if not checks:
+            return d, None
     p = subprocess.run(["/verif/tools/mutant.sh", d + "/patch.diff"] + checks, env=dict(os.environ, LINES_MAX="3"),
                        stdout=subprocess.PIPE, stderr=subprocess.STDOUT, text=True, errors="replace")
     res = {c: int(e) for c, e in re.findall(r"MUTANT-RESULT (\S+) exit=(\d+)", p.stdout)}
     m = json.load(open(d + "/meta.json"))
+    if m.get("final") and os.environ.get("ONLY_CHECKS"):
+        res = dict(m["final"].get("results", {}), **res)
     m["final"] = {"date": time.strftime("%Y-%m-%d %H:%M"), "results": res, "quiet": bool(res) and all(v == 0 for v in res.values()),
                   "lines": [l for l in p.stdout.splitlines() if l.startswith(("VIOLATION", "   check=")) or "INCONCLUSIVE" in l][:6]}
     json.dump(m, open(d + "/meta.json", "w"), indent=1)
